@@ -192,6 +192,7 @@ func runC10SelfLoopEnd(c *Cfg) {
 }
 
 func runC10(c *Cfg) {
+	runSpecial(c, "C10", "startless-inner-flow-with-edges")
 	r := c.Rep
 	defer func() {
 		ll := longLoopCases()
